@@ -127,3 +127,20 @@ Proof.
   - apply pl_cons; [unfold in_i64, two63; lia | | reflexivity | apply pl_nil].
     cbn [msg_ok]. unfold MAXLEN. cbn [olist]. repeat split; try lia; try (now left); try (intros H; discriminate); cbn; lia.
 Qed.
+
+(* ---------------------------------------------------------------- FetchResponseBlock *)
+From SV Require Import Wire.FetchProofs.
+Definition ex_b2 : batch := mkBatch 5 0 2 1 true false 0 0 0 0 0 0 (Some [ex_record; ex_record]) false false.
+Definition ex_fblock : fblock :=
+  mkFBlock 3 1000 900 10 (Some [(7, 20); (8, 30)]) 2 None [RDefault ex_batch; RDefault ex_b2] false.
+Example ex_fblock_decodes :
+  match fblock_ops ex_compress 11 ex_fblock with
+  | inr ops => match encode ops with
+               | EncOk bs => match fblock_decode ex_compress 3 11 (new_dec bs) with
+                             | Ok b d => b = norm_fblock 11 ex_fblock [ex_batch; ex_b2] /\ off d = len bs /\
+                                         fb_records b = Some (RDefault (norm_batch ex_batch))
+                             | _ => False end
+               | _ => False end
+  | inl _ => False
+  end.
+Proof. vm_compute. repeat split; reflexivity. Qed.
